@@ -33,7 +33,8 @@ def run_c01(tier, seed, res):
                      "type_scorer_automaton(Wt>3)", "models_with_tag_models",
                      "cases_with_weight_vectors_longer_than_8", "cases_with_weight_vectors_up_to_8",
                      "matched_chars_2_bytes", "matched_chars_3_bytes", "matched_chars_4_bytes", "window_ge_9",
-                     "texts_longer_than_65535", "sentences_predicted_twice_in_a_row"],
+                     "texts_longer_than_65535", "sentences_predicted_twice_in_a_row",
+                     "cases_with_entry_cancelling_its_suffix_chain"],
     }
 
 
@@ -49,7 +50,7 @@ def run_c06(tier, seed, res):
         "rule": "case = generated model with >= 1 tag model + texts; after predict (boundaries kept or overwritten so that modelled "
                 "tokens occur) and fill_tags every tag, n_tags and (score storing on) every candidate score is compared with the "
                 "reference tagger; non-trivial iff at least one token with a tag model was checked",
-        "required": ["tokens_with_tag_model", "categories_with_0_candidates", "categories_with_1_candidate",
+        "required": ["fill_tags_runs_with_unknown_boundaries_present", "tokens_with_tag_model", "categories_with_0_candidates", "categories_with_1_candidate",
                      "categories_with_2+_candidates", "tag_ties", "tag_ngram_matched_at_rel_0", "tag_ngram_matched_at_rel_1",
                      "tag_ngram_matched_at_rel_2", "models_with_more_than_8_classes",
                      "tokens_with_candidate_scores_compared", "models_with_empty_char_boundary_model",
@@ -63,10 +64,26 @@ def run_c14(tier, seed, res):
     E.run_workload(res, "mon", "C14", sz(tier, 20000, 600000), tier, seed)
     if tier == "thorough":
         E.run_workload(res, "asan", "C14", 10000, tier, seed + 1, env=ASAN_ENV)
+    # the serialised layout depends on the feature configuration (scorer variants are cfg-gated): round trips inside other builds
+    names = ["no-cache", "alloc-only"] if tier == "quick" else ["no-cache", "alloc-only", "no-fix", "no-charwise", "no-tags"]
+    build_many(["feat:" + x for x in names])
+    for x in names:
+        sub = E.Results()
+        E.run_workload(sub, "feat:" + x, "C13", sz(tier, 2000, 20000), tier, seed, tag="c14-feat-%s" % x, chunks=max(1, E.NCPU // 2))
+        for v in sub.violations:
+            if "serial" in v["sig"] or ":abort:" in v["sig"] or "panicked" in v["sig"]:
+                v = dict(v)
+                v["sig"] = "C14:" + v["sig"].split(":", 1)[1] + "[features=%s]" % x
+                res.violations.append(v)
+        res.incidents.extend(sub.incidents)
+        res.runs.extend(sub.runs)
+        res.evals += sub.evals
+        res.add_counter("predictor_round_trips_in_other_feature_builds", sub.cases)
     return {
         "rule": "case = generated model; predictor p (with or without tag prediction) is serialised, random trailing bytes appended, "
                 "deserialised into q; remaining slice must equal the trailing bytes; scores/boundaries/tags/tag scores of p and q "
-                "are compared on every text and with the reference; non-trivial iff a pattern occurs in a text",
+                "are compared on every text and with the reference; one predictor of several tens of MB; plain and tag-carrying predictors are also "
+                "round-tripped inside builds with other feature sets (own scorer variants); non-trivial iff a pattern occurs in a text",
         "required": ["char_ngram_occurrences", "type_ngram_occurrences", "dict_word_occurrences",
                      "predictors_with_tag_prediction", "predictors_with_tag_prediction_on_tagless_model", "cases_with_trailing_bytes",
                      "type_scorer_cached_table(Wt<=3,no_tags)", "type_scorer_automaton(Wt>3)",
@@ -88,7 +105,8 @@ def run_c02(tier, seed, res):
         "required": ["vectors_with_2+_consecutive_skipped_segments", "vectors_with_skipped_first_segment",
                      "vectors_with_skipped_final_segment", "vectors_without_unknown", "exhaustive_label_vectors",
                      "sentences_via_from_raw+boundaries_mut", "sentences_via_predict_then_boundaries_mut",
-                     "sentences_via_from_partial_annotation", "sentences_via_update_raw_after_text_of_same_shape"],
+                     "sentences_via_from_partial_annotation", "sentences_via_update_raw_after_text_of_same_shape",
+                     "fallback_sentences_after_rejected_update_checked"],
         "exhaustive": True,
         "extra": {"exhaustive_scope": "all 3^(n-1) label vectors for n = 1..%d (the random part is sampled)" % nmax},
     }
@@ -153,9 +171,10 @@ def run_c05(tier, seed, res):
         "required": ["raw_accepted", "raw_rejected", "tokenized_accepted", "tokenized_rejected", "partial_annotation_accepted",
                      "partial_annotation_rejected", "history_steps", "exhaustive_strings",
                      "updates_checked_after_histories_with_predictors", "reduced_feature_configurations_run",
-                     "histories_with_raw_update_after_tagged_state"],
+                     "histories_with_raw_update_after_tagged_state", "scalar_values_typed_through_all_constructors",
+                     "updates_on_sentence_already_holding_the_same_text_with_labels", "intermediate_states_read"],
         "exhaustive": True,
-        "extra": {"exhaustive_scope": "all strings of length <= %d over the 9-symbol alphabet x 3 parsers (random strings and histories are sampled)" % maxlen},
+        "extra": {"exhaustive_scope": "all strings of length <= %d over the 9-symbol alphabet x 3 parsers, and the character type of every Unicode scalar value through the 3 parsers (random strings and histories are sampled)" % maxlen},
     }
 
 
@@ -187,7 +206,8 @@ def run_c07(tier, seed, res):
                 "distinct = distinct model byte strings",
         "required": ["prefixes_tried", "prefixes_shorter_than_header", "io_fault_points_tried", "header_mutations_tried",
                      "models_with_tag_models", "models_fully_enumerated", "shipped_model_checked", "large_model_round_trips",
-                     "model_round_trips_in_reduced_feature_builds", "models_with_repeated_dictionary_word"],
+                     "model_round_trips_in_reduced_feature_builds", "models_with_repeated_dictionary_word",
+                     "models_with_dictionary_word_longer_than_32767_bytes"],
         "exhaustive": True,
         "extra": {"exhaustive_scope": "per fully enumerated model: all proper prefixes, all reader/writer fault positions, all 25x255 header byte changes"},
     }
@@ -196,6 +216,11 @@ def run_c07(tier, seed, res):
 # ------------------------------------------------------------------ C08
 def run_c08(tier, seed, res):
     E.run_workload(res, "mon", "C08h", sz(tier, 40000, 1500000), tier, seed)
+    # the sentence type has feature-gated fields: annotation-bearing histories inside reduced builds
+    names = ["no-tags", "alloc-only"]
+    build_many(["feat:" + x for x in names])
+    for x in names:
+        E.run_workload(res, "feat:" + x, "C08f", sz(tier, 30000, 600000), tier, seed, tag="c08f-feat-%s" % x)
     E.run_workload(res, "mon", "C08t", sz(tier, 800, 20000), tier, seed, extra=["--threads", "16"], chunks=sz(tier, 8, 16), per_case_timeout=20.0)
     n_miri = sz(tier, 32, 640)
     E.run_miri(res, "C08t", n_miri, tier, seed, extra=["--tiny"], procs=n_miri, vary_scheduler_seed=True)
@@ -210,7 +235,7 @@ def run_c08(tier, seed, res):
                 "shuffled text list for several rounds, results compared with a sequential baseline - natively, under Miri's data-race detector with "
                 "several scheduler seeds (tiny models) and, thorough tier, under ThreadSanitizer with an instrumented std; the set of interleavings "
                 "seen natively is not observable and is not claimed; distinct = distinct (history, final predictor, text) / (model, threads, rounds)",
-        "required": ["histories_with_tagged_state_before_final_update", "histories_with_other_predictor_before_final",
+        "required": ["histories_ending_on_permutation_of_final_text", "histories_ending_on_final_text_itself_with_labels", "intermediate_states_read", "reduced_build_histories_with_tagged_state_before_final_update", "histories_with_tagged_state_before_final_update", "histories_with_other_predictor_before_final",
                      "histories_with_failed_update_directly_before_final", "final_predictor_with_tags",
                      "final_predictor_storing_scores", "history_ops", "concurrent_predictions", "threads_started",
                      "cases_with_tag_prediction", "histories_with_line_longer_than_4096_chars",
@@ -226,7 +251,8 @@ def run_c15(tier, seed, res):
                 "labels incl. unknown; 0..3 tag slots) x 9 filters (six character types, line breaks, grapheme clusters, pattern tagger with "
                 "random rules); after filter: text, types, tag count, every boundary and every tag compared with the reference rule "
                 "(grapheme clusters from unicode-segmentation over the whole string); filter applied twice == once; distinct = distinct sentences",
-        "required": ["sentences_with_multi_char_grapheme_cluster", "sentences_with_cr_or_lf", "sentences_with_unknown_boundary",
+        "required": ["fallback_sentences_filtered", "sentences_where_extended_and_legacy_clusters_differ",
+                     "sentences_with_multi_char_grapheme_cluster", "sentences_with_cr_or_lf", "sentences_with_unknown_boundary",
                      "sentences_with_tags", "single_character_sentences", "sentences_with_cluster_longer_than_64_bytes",
                      "sentences_with_more_than_32_tag_columns",
                      "filter_changed_something:ConcatGraphemeClustersFilter", "filter_changed_something:SplitLinebreaksFilter",
@@ -261,7 +287,7 @@ def run_c10(tier, seed, res):
                 "non-trivial iff the corpus has an annotated boundary",
         "required": ["unknown_boundaries_in_corpus", "annotated_boundaries_in_corpus", "examples_with_feature_count_above_1",
                      "configs_with_window_0", "configs_with_n_greater_than_window", "configs_with_dictionary",
-                     "sentences_without_any_annotation"],
+                     "sentences_without_any_annotation", "configs_with_window_above_128_and_long_sentence"],
     }
 
 
@@ -276,7 +302,8 @@ def run_c11(tier, seed, res):
                 "every case is non-trivial (an Err from training is a legal outcome and is counted)",
         "required": ["training_returned_model", "training_returned_error", "train_cli_wrote_model", "configs_with_window_of_8_or_more",
                      "cases_with_large_dictionary", "configs_with_type_window_gt_char_window",
-                     "configs_with_n_greater_than_window", "configs_with_window_0", "corpora_with_tags"] +
+                     "configs_with_n_greater_than_window", "configs_with_window_0", "corpora_with_tags",
+                     "configs_with_char_window_of_128_or_more", "configs_with_type_window_of_128_or_more"] +
                     ["solver_%d" % i for i in range(8)] +
                     ["corpus_class_%s" % c for c in ["normal", "empty", "single_sentence", "single_character", "no_word_boundary",
                                                       "only_word_boundaries", "untagged", "partially_tagged", "ambiguous_tags",
@@ -303,17 +330,22 @@ def run_c12(tier, seed, res):
 # ------------------------------------------------------------------ C17
 def run_c17(tier, seed, res):
     E.run_workload(res, "mon", "C17", sz(tier, 6000, 200000), tier, seed, per_case_timeout=5.0)
+    E.run_workload(res, "mon", "C17cli", sz(tier, 150, 3000), tier, seed, extra=cli_extra("C17"), per_case_timeout=30.0)
     return {
         "rule": "case = generated KyTea binary file (char map incl. the six type letters and sometimes the bogus type byte 0x04, windows 1..4, "
                 "tries for char and type n-grams with reversed goto order and suffix outputs on non-final states, 0..8 dictionaries with "
                 "membership masks and bucketed weights, 0..3 tag slots, optional self / sub-word dictionaries, extra stored weights, trailing "
                 "bytes); KyteaModel::read -> Model::try_from -> mirror must equal the generator's ground truth and predict like the reference "
                 "scorer; every prefix shorter than what the reader consumes must give Err without panic (all prefixes for 1 in 4 files and "
-                "for small files; case 0 = resources/kytea-model.bin with all its prefixes); non-trivial iff the file has an n-gram or a word",
+                "for small files; case 0 = resources/kytea-model.bin with all its prefixes); the file is also read through a source that hands out "
+                "1..3 bytes per call with interruptions, and the converted model written through a short-write sink; the real convert_kytea_model "
+                "binary must store (zstd) exactly the library's conversion, also for models of several hundred kB; "
+                "non-trivial iff the file has an n-gram or a word",
         "required": ["prefixes_tried", "files_with_type_byte_0x04", "files_with_several_dictionaries", "files_with_tag_slots",
                      "files_with_word_longer_than_bucket", "files_with_windows_that_differ", "files_with_extra_stored_weights",
                      "char_ngrams_in_files", "type_ngrams_in_files", "dictionary_words_in_files", "shipped_kytea_model_checked",
-                     "files_with_every_prefix_enumerated", "files_with_char_ids_above_32767", "files_with_word_of_255_or_more_chars"],
+                     "files_with_every_prefix_enumerated", "files_with_char_ids_above_32767", "files_with_word_of_255_or_more_chars",
+                     "tool_conversions_equal_to_library_conversion", "converted_models_larger_than_128KiB"],
     }
 
 
@@ -340,7 +372,8 @@ def run_c19(tier, seed, res):
                      "edits_from_empty_dictionary", "words_with_comma_quote_or_newline", "weights_outside_16_bit",
                      "non_empty_comments", "dictionaries_empty", "corrupted_csv_runs", "new_dictionaries_with_repeated_record",
                      "dictionaries_with_repeated_record", "new_dictionaries_with_word_of_8_or_more_chars",
-                     "runs_with_dump_and_replace_together"],
+                     "runs_with_dump_and_replace_together", "weights_with_more_than_24_significant_bits",
+                     "edits_adding_or_removing_entry_that_cancels_its_suffix"],
     }
 
 
@@ -350,7 +383,8 @@ def run_c20(tier, seed, res):
     return {
         "rule": "predict: case = generated model x input stream of 1..12 lines (empty lines, NUL, spaces, slashes, backslashes, half-width, interior CR) "
                 "x all 16 subsets of {--no-norm, --predict-tags, --scores, --tag-scores} each with a random --wsconst list; stdout of the real "
-                "binary is compared byte for byte with the output computed line by line from library calls on fresh sentences (layout: line, "
+                "binary is compared byte for byte with the output computed line by line from library calls on fresh sentences, the tokenised line "
+                "itself written by the reference writer from the accessor state (layout: line, "
                 "newline, score block, tag-score block; rejected line = empty line without blocks); without blocks every output line is "
                 "also parsed by the reference parser and must unescape to the input line; exit 101 / signal = crash. evaluate: generated "
                 "tokenized references x {char, word} x {normalised, --no-norm} (+ --predict-tags, --wsconst): counts and P/R/F1 recomputed from "
@@ -359,7 +393,7 @@ def run_c20(tier, seed, res):
         "required": ["streams_with_empty_first_line", "streams_with_rejected_line", "models_with_tag_models",
                      "lines_checked_by_reference_parser", "evaluate_char_runs_compared", "evaluate_word_runs_compared",
                      "mode_equivalence_pairs_compared", "references_with_normaliser_keys_sprinkled",
-                     "references_repeated_as_width_variant"] + ["predict_runs_flags_%s" % format(m, "04b") for m in range(16)],
+                     "references_repeated_as_width_variant", "reference_sentences_of_white_space_only"] + ["predict_runs_flags_%s" % format(m, "04b") for m in range(16)],
     }
 
 
@@ -473,7 +507,7 @@ def run_c16(tier, seed, res):
         "required": ["scalar_values_checked", "scalar_values_changed_by_normaliser", "strings_changed_by_normaliser", "tokens_checked",
                      "streams_compared_with_core_pipeline", "texts_empty", "texts_with_cr_or_lf", "texts_changed_by_normaliser",
                      "texts_with_multibyte", "tokenizers_from_serialised_predictor", "wsconst_with_grapheme_filter", "wsconst_empty",
-                     "cases_reusing_one_tokenizer_for_all_texts"],
+                     "cases_reusing_one_tokenizer_for_all_texts", "texts_with_token_longer_than_65530_bytes"],
         "exhaustive": True,
         "extra": {"exhaustive_scope": "the normaliser is checked on every Unicode scalar value; strings and token streams are sampled"},
     }
